@@ -536,10 +536,17 @@ func (env *SpecEnv) evalIndex(n EIndex) specVal {
 		i := env.Int(n.I)
 		et := x.t.Underlying().(*types.Slice).Elem()
 		p := elemPtr(v, i, et)
-		if a, ok := et.Underlying().(*types.Array); ok {
-			_ = a
+		val := env.e.loadPtr(env.st, p, env.heap)
+		// the element's type invariant (a byte is 0..255) holds in every heap; state it for this
+		// cell so that the obligation does not depend on the quantified typing axioms
+		if env.st != nil && !env.st.dead {
+			for _, f := range rangeFacts(val, et) {
+				if !reBoundVar.MatchString(f.S) {
+					env.st.Assume(f)
+				}
+			}
 		}
-		return specVal{env.e.loadPtr(env.st, p, env.heap), et}
+		return specVal{val, et}
 	case VArr:
 		i := env.Int(n.I)
 		var ts []Term
